@@ -631,5 +631,74 @@ def ljscore_check(ctx):
     return rc
 
 
-REGISTRY = {"C03": ljscore_check, "C13": lj_check, "C14": lattice_check, "C17": parser_check, "C01": crystal_check, "C02": crystal_check, "C04": crystal_check, "C15": crystal_check,
+def output_check(ctx):
+    pid, tier, seed, t0 = ctx["pid"], ctx["tier"], ctx["seed"], ctx["t0"]
+    vp.build_harness()
+    th = tier == "thorough"
+    if ctx.get("replay"):
+        rp = json.load(open(ctx["replay"]))
+        d = os.path.join(vp.WORK, "C11_replay")
+        os.makedirs(d, exist_ok=True)
+        nd = os.path.join(d, "replay.ndjson")
+        n = 0
+        with open(nd, "w") as f:
+            for x in rp["failures"]:
+                if isinstance(x.get("state"), dict) and "uses" in x["state"]:
+                    f.write(json.dumps(x["state"]) + "\n")
+                    n += 1
+        if n:
+            res = os.path.join(d, "result.json")
+            vp.pvh(["svg", "--in", nd, "--out", res])
+            if json.load(open(res))["C11"]["failures"]:
+                print("VIOLATION property=%s replay=%s" % (pid, ctx["replay"]))
+                return 1
+        return 0
+    r = crystal_run("C11_svg", G7, "{Square, Kite, Circle, Trimer(5, 15)}",
+                    ax=[28, 44] + ([20] if th else []),
+                    b=[(0, 28), (0, 14), (9, 12), (12, 16)] + ([(15, 20)] if th else []),
+                    site=[-4, -3, 0, 2] + ([-1, 3] if th else []), orient=[1, 2, 5, 7, 11, 14] + ([3, 9, 16] if th else []),
+                    invs=["ModelOK", "EmitSvg"])
+    if r.get("error") or r["violations"]:
+        vp.log("TOOL-ERROR: TLC on Crystal (svg): %s %s" % (r.get("error"), r["violations"]))
+        vp.log(r["text_tail"][-1500:])
+        return 2
+    res = os.path.join(r["dir"], "result.json")
+    vp.pvh(["svg", "--in", r["ndjson"], "--out", res])
+    t = json.load(open(res))["C11"]
+    failures = [(f["what"], f.get("state")) for f in t["first_failures"]]
+    d = os.path.join(vp.WORK, "C11_json")
+    os.makedirs(d, exist_ok=True)
+    jres = os.path.join(d, "json.json")
+    vp.pvh(["json-random", "--out", jres, "--tier", tier, "--seed", str(seed)], timeout=3000)
+    jr = json.load(open(jres))
+    for f in jr["first_failures"]:
+        failures.append((f["what"], f.get("state")))
+    import opt_checks
+    tr = opt_checks.aux_trace_check("C11", ["C11SameDone"], ["C11Same"], "saveload", tier, seed)
+    if tr["errors"]:
+        vp.log("TOOL-ERROR: trace validation failed on", tr["errors"])
+        return 2
+    failures.extend(tr["failures"])
+    with open(r["ndjson"]) as fh:
+        sample = json.loads(fh.readline())
+    coverage = {"states": r["distinct"] + tr["states"], "transitions": r["generated"],
+                "traces_validated_against_impl": r["n_emitted"] + tr["runs"],
+                "samples": [sample],
+                "svg_grid_states": r["n_emitted"], "use_elements_checked": t["use_elements_checked"],
+                "json_roundtrips_on_grid_states": t["json_roundtrips"],
+                "json_roundtrips_on_random_finite_values": jr["states_checked"],
+                "saveload_continuation_runs_validated": tr["runs"], "saveload_events": tr["events"],
+                "sets": r["defs"], "exhaustive": True,
+                "rule": "svg: every grid state (7 groups, 4 shapes, rectangular and sheared cells, rational orientations), as hard and as LJ state: the <use href=#mol> matrices must be TLC's placements and their 8 nearest images as a multiset, the <use href=#cell> ones the 9 lattice translations; "
+                        "json: score bits, placement bits and re-serialisation identical after one write/read; "
+                        "continuation: stage 2 from the JSON copy must repeat stage 2 from the state itself evaluation by evaluation (TLC formulas C11Same, C11SameDone)"}
+    rc = finish(pid, tier, seed, t0, coverage, failures,
+                ["float fidelity off the grid (17-digit values, subnormals, -0.0, 1e+-300) is driven by the harness and decided by bit equality; TLC cannot enumerate floats",
+                 "the SVG is compared on the transforms it places the shape at, not on colours or view box"])
+    vp.log("[C11] output: %d grid states (%d <use> elements), %d+%d JSON round trips, %d save/load runs, %.0fs"
+           % (r["n_emitted"], t["use_elements_checked"], t["json_roundtrips"], jr["states_checked"], tr["runs"], time.time() - t0))
+    return rc
+
+
+REGISTRY = {"C11": output_check, "C03": ljscore_check, "C13": lj_check, "C14": lattice_check, "C17": parser_check, "C01": crystal_check, "C02": crystal_check, "C04": crystal_check, "C15": crystal_check,
             "C12": pairs_check, "C16": tables_check}
